@@ -3026,7 +3026,9 @@ def transform_pseudo_instructions(items, constants, labels):
                 new_items.append(inst)
                 log_conversion('transform_pseudo_instructions', item, inst)
 
-                inst = ITypeInstruction(item.line, 'addi', rd=rd, rs1=rd, imm=Lo(imm))
+                # %hi / %lo only pair up on the same value: like the jalr of a far call, the addi
+                # takes its immediate relative to the first instruction of the expansion
+                inst = ITypeInstruction(item.line, 'addi', rd=rd, rs1=rd, imm=Lo(imm), is_auipc_jump=True)
         elif item.name == 'mv':
             rd, rs = item.args
             inst = ITypeInstruction(item.line, 'addi', rd=rd, rs1=rs, imm=Arithmetic('0'))
